@@ -47,6 +47,24 @@ pub struct Setup {
     pub init: Vec<String>,
     /// per session: lines executed sequentially before the threads start (e.g. use-db, watch)
     pub session_init: Vec<Vec<String>>,
+    /// after every execution, feed what the node queued for its secondaries, in queue order, to a
+    /// fresh replica built the same way, and compare the two nodes (C04, C19)
+    pub check_replica: bool,
+}
+
+/// A secondary that receives `stream` (the primary's replication queue, FIFO) over one link.
+pub fn replica_view(setup: &Setup, stream: &[String]) -> FinalView {
+    let (w, _sessions) = build(setup);
+    let mut link = Session::new();
+    link.exec(&w.node, &format!("auth {} {}", USER, PWD));
+    // the way a primary introduces itself on a replication link; the node becomes a secondary
+    link.exec(&w.node, "set-primary primary:1");
+    for (i, m) in stream.iter().enumerate() {
+        link.exec(&w.node, &format!("rp {} {}", 9000 + i, m));
+    }
+    let v = final_view(&w.node, "t");
+    w.node.remove_dir();
+    v
 }
 
 pub fn build(setup: &Setup) -> (CWorld, Vec<Session>) {
